@@ -1,0 +1,20 @@
+//go:build verif
+
+package server
+
+import (
+	"net/http"
+
+	"github.com/go-chi/chi/v5"
+)
+
+// Routes exposes the router behind a handler built by NewServer so that a verification harness can
+// enumerate the registered routes (chi.Walk). Only compiled with the build tag "verif".
+func Routes(h http.Handler) chi.Routes {
+	if s, ok := h.(*server); ok {
+		if r, ok := s.handler.(chi.Routes); ok {
+			return r
+		}
+	}
+	return nil
+}
